@@ -75,6 +75,9 @@ def gen_shape(r, tid, kinds=('struct', 'enum'), maxf=4, ftgen=None, min_variants
         shape = pick(r, ['named', 'unnamed', 'unit'] if unit_ok else ['named', 'unnamed'])
         n = 0 if shape == 'unit' else pick(r, [0, 1, 2, 2, 3, maxf] if unit_ok else [1, 2, 2, 3, maxf])
         vs.append(Var(vn, shape, fields(n, shape == 'named')))
+    if unit_ok and len(vs) >= 2 and r.random() < 0.2:
+        # a data-less variant written with delimiters (`V()` / `V {}`) after data-carrying ones
+        vs[-1] = Var(vs[-1].name, pick(r, ['unnamed', 'named']), [])
     return Ty(tid, 'enum', vs)
 
 # ------------------------------------------------------------------ Rust text helpers
@@ -134,7 +137,7 @@ def type_decl_inner(t):
         out.append('pub enum T%s { %s }' % (gen_params(t), ', '.join(vs)))
     else:
         v = t.variants[0]
-        out.append('pub union T { %s }' % ', '.join('%spub %s: %s' % (fattr_text(f), f.name, f.ft.rust) for f in v.fields))
+        out.append('pub union T%s { %s }' % (gen_params(t), ', '.join('%spub %s: %s' % (fattr_text(f), f.name, f.ft.rust) for f in v.fields)))
     return '\n'.join(out)
 
 def ctor(t, v):
@@ -228,6 +231,11 @@ def sp_ignore(r, trait, shorthand=True):
     if shorthand:
         l.append('%s = false' % trait)
     return pick(r, l)
+def sp_ignore_with_method(r, trait, path):
+    """an ignored field that ALSO names a method: the field stays ignored"""
+    ps = [pick(r, ['ignore', 'ignore = true', 'ignore(true)']), pick(r, ['method(%s)', 'method = %s', 'method = "%s"']) % path]
+    r.shuffle(ps)
+    return '%s(%s)' % (trait, ', '.join(ps))
 def sp_method(r, trait, path):
     return pick(r, ['%s(method(%s))', '%s(method = %s)', '%s(method = "%s")', '%s(method("%s"))']) % (trait, path)
 def sp_rank(r, n):
@@ -269,15 +277,57 @@ def module(t, body, nvals):
     if NOISE[0] is not None and not getattr(t, '_noised', False):
         t._noised = True
         add_noise(t, NOISE[0][1], NOISE[0][0])
-    ty = ('pub mod ty {\n    #![deny(warnings)]\n    #![allow(dead_code, unused_imports, non_snake_case)]\n    use crate::support::{A, B, C, N, Fl, Good, Bad, g_clone, g_default, g_into, m_eq, m_cmp, m_pcmp, m_hash, m_fmt, m_clone, m_clone_c, m_into, m_same, Mk, g_eq, g_cmp, g_pcmp, g_hash, g_fmt};\n'
+    ty = ('pub mod ty {\n    #![deny(warnings)]\n    #![allow(dead_code, unused_imports, non_snake_case)]\n    use crate::support::{A, B, C, N, Fl, Good, Bad, Half, g_clone, g_default, g_into, m_eq, m_cmp, m_pcmp, m_hash, m_fmt, m_clone, m_clone_c, m_into, m_same, Mk, g_eq, g_cmp, g_pcmp, g_hash, g_fmt};\n'
           '    use educe::Educe;\n%s%s\n}\npub use ty::T;' % (HOSTILE_ITEMS if HOSTILE[0] else '', type_decl(t)))
     return ('// %s\n#![allow(dead_code, unused_variables, unused_mut, unused_imports, non_shorthand_field_patterns, clippy::all)]\n'
             'use crate::support::*;\nuse core::cmp::Ordering;\n%s\n%s\n' % (t.id, ty, body))
+
+def add_discriminants(r, t, p_disc=0.5, p_repr=0.2):
+    """explicit discriminants (any integer repr, gaps, negative, beyond i64) and repr attributes on an enum"""
+    if t.kind != 'enum':
+        return
+    c = r.random()
+    if c < p_disc:
+        ds = r.sample([-170, -5, -1, 0, 1, 2, 3, 100, 127, 128, 200, 255, 1000, 70000], len(t.variants))
+        if r.random() < 0.35:
+            # discriminants that are a permutation of the positions: a discriminant equals ANOTHER variant's index
+            ds = list(range(len(t.variants))); r.shuffle(ds)
+        all_unit = all(v.shape == 'unit' for v in t.variants)
+        rp = pick(r, ['i64', 'i32', 'isize', 'i64'])
+        big = r.random()
+        if big < 0.2:
+            ds = r.sample([0, 1, 5, 2 ** 63 - 1, 2 ** 63, 2 ** 63 + 7, 2 ** 64 - 1], len(t.variants)); rp = 'u64'
+        elif big < 0.35:
+            ds = r.sample([-2 ** 100, -2 ** 63 - 1, -1, 0, 3, 2 ** 63, 2 ** 64 + 1, 2 ** 126], len(t.variants)); rp = 'i128'
+        if all_unit and r.random() < 0.5:
+            rp = None
+        for v, d in zip(t.variants, ds):
+            if r.random() < 0.7:
+                v.discr = d
+        if rp:
+            t.pre_attrs.append('#[repr(%s)]' % rp)
+        # rustc refuses equal discriminants: fall back to implicit ones
+        eff, cur = [], 0
+        for v in t.variants:
+            if v.discr is not None:
+                cur = v.discr
+            eff.append(cur); cur += 1
+        lim = {'u64': (0, 2 ** 64 - 1), 'i64': (-2 ** 63, 2 ** 63 - 1), 'i32': (-2 ** 31, 2 ** 31 - 1), 'isize': (-2 ** 63, 2 ** 63 - 1),
+               'i128': (-2 ** 127, 2 ** 127 - 1), None: (-2 ** 63, 2 ** 63 - 1)}[rp]
+        if len(set(eff)) != len(eff) or any(e < lim[0] or e > lim[1] for e in eff) or (rp is None and any(v.shape != 'unit' for v in t.variants)):
+            for v in t.variants:
+                v.discr = None
+    elif c < p_disc + p_repr:
+        reprs = ['#[repr(u8)]', '#[repr(C)]', '#[repr(align(8))]', '#[repr(u16)]', '#[repr(i8)]']
+        if any(v.shape != 'unit' for v in t.variants):
+            reprs.append('#[repr(C, u8)]')
+        t.pre_attrs.append(pick(r, reprs))
 
 class EqSuite(Suite):
     name = 'eq'
     def make(self, r, tid):
         t = gen_shape(r, tid)
+        add_discriminants(r, t, p_disc=0.2, p_repr=0.1)
         use_eq = r.random() < 0.4
         t.type_attrs = ['PartialEq, Eq'] if use_eq else ['PartialEq']
         if r.random() < 0.3:
@@ -287,7 +337,7 @@ class EqSuite(Suite):
                 c = r.random()
                 tr = 'Eq' if (use_eq and r.random() < 0.4) else 'PartialEq'
                 if c < 0.3:
-                    f.at['eq'] = 'ignore'; f.at['_metas'] = [sp_ignore(r, tr)]
+                    f.at['eq'] = 'ignore'; f.at['_metas'] = [sp_ignore(r, tr) if r.random() < 0.75 else sp_ignore_with_method(r, tr, 'm_eq')]
                 elif c < 0.55:
                     f.at['eq'] = 'method'; f.at['_metas'] = [sp_method(r, tr, 'm_eq')]
                 else:
@@ -319,11 +369,12 @@ class HashSuite(Suite):
     def make(self, r, tid):
         t = gen_shape(r, tid)
         t.type_attrs = ['Hash']
+        add_discriminants(r, t, p_disc=0.45, p_repr=0.1)
         for v in t.variants:
             for f in v.fields:
                 c = r.random()
                 if c < 0.3:
-                    f.at['h'] = 'ignore'; f.at['_metas'] = [sp_ignore(r, 'Hash')]
+                    f.at['h'] = 'ignore'; f.at['_metas'] = [sp_ignore(r, 'Hash') if r.random() < 0.7 else sp_ignore_with_method(r, 'Hash', 'm_hash')]
                 elif c < 0.55:
                     f.at['h'] = 'method'; f.at['_metas'] = [sp_method(r, 'Hash', 'm_hash')]
                 else:
@@ -372,42 +423,7 @@ class OrdSuite(Suite):
             t.extra = 'impl PartialOrd for T { fn partial_cmp(&self, o: &Self) -> Option<Ordering> { Some(::core::cmp::Ord::cmp(self, o)) } }'
         meth = 'm_pcmp' if mode == 'partial' else 'm_cmp'
         # discriminants / repr
-        if t.kind == 'enum':
-            c = r.random()
-            if c < 0.5:
-                ds = r.sample([-170, -5, -1, 0, 1, 2, 3, 100, 127, 128, 200, 255, 1000, 70000], len(t.variants))
-                all_unit = all(v.shape == 'unit' for v in t.variants)
-                rp = pick(r, ['i64', 'i32', 'isize', 'i64'])
-                big = r.random()
-                if big < 0.2:
-                    ds = r.sample([0, 1, 5, 2 ** 63 - 1, 2 ** 63, 2 ** 63 + 7, 2 ** 64 - 1], len(t.variants)); rp = 'u64'
-                elif big < 0.35:
-                    ds = r.sample([-2 ** 100, -2 ** 63 - 1, -1, 0, 3, 2 ** 63, 2 ** 64 + 1, 2 ** 126], len(t.variants)); rp = 'i128'
-                if all_unit and r.random() < 0.5:
-                    rp = None
-                    if any(d < 0 for d in ds):
-                        pass
-                for v, d in zip(t.variants, ds):
-                    if r.random() < 0.7:
-                        v.discr = d
-                if rp:
-                    t.pre_attrs.append('#[repr(%s)]' % rp)
-                # rustc refuses equal discriminants: fall back to implicit ones
-                eff, cur = [], 0
-                for v in t.variants:
-                    if v.discr is not None:
-                        cur = v.discr
-                    eff.append(cur); cur += 1
-                lim = {'u64': (0, 2 ** 64 - 1), 'i64': (-2 ** 63, 2 ** 63 - 1), 'i32': (-2 ** 31, 2 ** 31 - 1), 'isize': (-2 ** 63, 2 ** 63 - 1),
-                       'i128': (-2 ** 127, 2 ** 127 - 1), None: (-2 ** 63, 2 ** 63 - 1)}[rp]
-                if len(set(eff)) != len(eff) or any(e < lim[0] or e > lim[1] for e in eff) or (rp is None and any(v.shape != 'unit' for v in t.variants)):
-                    for v in t.variants:
-                        v.discr = None
-            elif c < 0.7:
-                reprs = ['#[repr(u8)]', '#[repr(C)]', '#[repr(align(8))]', '#[repr(u16)]', '#[repr(i8)]']
-                if any(v.shape != 'unit' for v in t.variants):
-                    reprs.append('#[repr(C, u8)]')
-                t.pre_attrs.append(pick(r, reprs))
+        add_discriminants(r, t)
         for v in t.variants:
             ranks = r.sample(range(-6, 7), len(v.fields))
             for i, f in enumerate(v.fields):
@@ -417,6 +433,8 @@ class OrdSuite(Suite):
                 if c < 0.2 and not self.layout:
                     f.at['o'] = 'ignore'
                     metas.append(('ignore', None))
+                    if r.random() < 0.3:
+                        metas.append(('method', meth))
                 elif c < 0.45 and not f.ft.native:
                     f.at['o'] = 'method'
                     metas.append(('method', meth))
@@ -559,6 +577,8 @@ class DebugSuite(Suite):
                 if not noparam:
                     if c < 0.2:
                         f.at['_metas'] = [pick(r, ['Debug(ignore)', 'Debug = false', 'Debug(ignore = true)', 'Debug(ignore(true))'])]
+                        if not f.ft.native and r.random() < 0.25:
+                            f.at['_metas'] = [sp_ignore_with_method(r, 'Debug', 'm_fmt')]
                         continue
                     if c < 0.45 and not f.ft.native:
                         meth = True
@@ -706,6 +726,10 @@ DEF_TYPES = [  # (rust type, [(attribute value text, expected expr)], plain defa
     ('u16', [('300', '300u16'), ('9u16', '9u16')], '0u16'),
     ('i64', [('12', '12i64'), ('1_000', '1000i64'), ('-12', '-12i64')], '0i64'),
     ('i8', [('-7', '-7i8'), ('5', '5i8')], '0i8'),
+    ('i16', [('-3', '-3i16'), ('7', '7i16'), ('-300', '-300i16')], '0i16'),
+    ('i32', [('-3', '-3i32'), ('70000', '70000i32')], '0i32'),
+    ('isize', [('-9', '-9isize'), ('4', '4isize')], '0isize'),
+    ('i128', [('-77', '-77i128')], '0i128'),
     ('u64', [('3u8', '3u64')] if False else [('3', '3u64')], '0u64'),
     ('f64', [('1.5', '1.5f64'), ('2', '2f64'), ('2.5f64', '2.5f64'), ('-3', '-3f64'), ('-0.5', '-0.5f64')], '0f64'),
     ('f32', [('1.5', '1.5f32'), ('-1.5', '-1.5f32')], '0f32'),
@@ -733,6 +757,10 @@ class DefaultSuite(Suite):
     def make(self, r, tid):
         def ftgen(r, i):
             ty, vals, dflt = pick(r, DEF_TYPES)
+            if r.random() < 0.2:
+                # integer types narrower / other than the literal fallback i32: a bare negative literal must stay a literal
+                ty, vals, dflt = pick(r, [d for d in DEF_TYPES if d[0] in ('i8', 'i16', 'isize', 'i64', 'i128')])
+                vals = [v for v in vals if v[0].startswith('-')] or vals
             ft = FT(ty, [], native=True)
             ft.defs, ft.dflt = vals, dflt
             return ft
@@ -775,8 +803,9 @@ class DerefSuite(Suite):
     def make(self, r, tid):
         target_k = r.randrange(3)
         t = gen_shape(r, tid, unit_ok=False, ftgen=lambda r, i: ft_A(r.randrange(3)))
-        mut = r.random() < 0.7
-        ref_field = (not mut) and r.random() < 0.3
+        mut = r.random() < 0.6
+        ref_field = (not mut) and r.random() < 0.45
+        mut_ref = ref_field and r.random() < 0.5       # `&mut A` instead of `&A`: still a reference to the referent
         plans = []
         for v in t.variants:
             n = len(v.fields)
@@ -788,6 +817,8 @@ class DerefSuite(Suite):
             v.fields[mi].ft = ft_A(target_k)
             if ref_field:
                 v.fields[di].ft = FT("&'static A<%d>" % target_k, ['&A(0)', '&A(1)'])
+                if mut_ref:
+                    v.fields[di].ft = FT("&'static mut A<%d>" % target_k, ['Box::leak(Box::new(A(0)))', 'Box::leak(Box::new(A(1)))'])
             metas = {}
             if n > 1 or r.random() < 0.3:
                 metas.setdefault(di, []).append('Deref')
@@ -806,10 +837,12 @@ class DerefSuite(Suite):
         r.shuffle(ta)
         t.type_attrs = [', '.join(ta)]
         tgt = 'A<%d>' % target_k
-        darms = ['%s => %s as *const %s' % (pat(t, v, 'p', only={di}), ('*p%d' % di) if ref_field else 'p%d' % di, tgt) for v, di, mi in plans]
+        darms = ['%s => %s as *const %s' % (pat(t, v, 'p', only={di}), ('&**p%d' % di) if ref_field else 'p%d' % di, tgt) for v, di, mi in plans]
         vf, nv = values_fn(t, r, cap=16)
         fns = [vf, show_fn(t), 'pub fn o_deref(x: &T) -> *const %s { match x { %s } }' % (tgt, ', '.join(darms))]
-        checks = ['for a in &vs { let g = ::core::ops::Deref::deref(a) as *const %s; let e = o_deref(a); out.check(g == e, "%s", "deref", || format!("&*{} has another address than the designated field", show(a))); }' % (tgt, tid)]
+        fns.append('pub fn target_of<D: ::core::ops::Deref>(d: &D) -> (*const u8, usize) where D::Target: Sized { (::core::ops::Deref::deref(d) as *const D::Target as *const u8, ::core::mem::size_of::<D::Target>()) }')
+        checks = ['for a in &vs { let g = ::core::ops::Deref::deref(a) as *const %s; let e = o_deref(a); out.check(g == e, "%s", "deref", || format!("&*{} has another address than the designated field", show(a)));'
+                  ' let (g2, sz) = target_of(a); out.check(g2 == e as *const u8 && sz == ::core::mem::size_of::<%s>(), "%s", "deref_target", || format!("<T as Deref>::Target is not the designated field\'s (referent) type, or &*{} has another address", show(a))); }' % (tgt, tid, tgt, tid)]
         if mut:
             marms = ['%s => p%d as *mut %s' % (pat(t, v, 'p', only={mi}), mi, tgt) for v, di, mi in plans]
             warms = ['%s => { *p%d = A(99); }' % (pat(t, v, 'p', only={mi}), mi) for v, di, mi in plans]
@@ -827,8 +860,12 @@ class IntoSuite(Suite):
     def make(self, r, tid):
         t = gen_shape(r, tid, unit_ok=False, ftgen=lambda r, i: ft_A(r.randrange(4)), maxf=3)
         ntargets = pick(r, [1, 1, 2, 3])
-        cands = ['B<0>', 'B<1>', 'B<2>', 'A<0>', 'A<1>']
+        cands = ['B<0>', 'B<1>', 'B<2>', 'A<0>', 'A<1>', "&'static A<1>", "::core::option::Option<&'static A<2>>"]
+        # targets whose spelling needs a space between two word-like tokens; the designated field has that very type
+        exotic = {"&'static A<1>": FT("&'static A<1>", ['&A(0)', '&A(1)']),
+                  "::core::option::Option<&'static A<2>>": FT("::core::option::Option<&'static A<2>>", ['None', 'Some(&A(1))'])}
         targets = r.sample(cands, ntargets)
+        exact = lambda tg: tg.startswith('A') or tg in exotic
         oracle = {}
         for v in t.variants:
             if not v.fields:
@@ -841,12 +878,16 @@ class IntoSuite(Suite):
                 des[(tg, v.name)] = i
                 if tg.startswith('A'):
                     v.fields[i].ft = ft_A(int(tg[2]))
+                elif tg in exotic:
+                    v.fields[i].ft = exotic[tg]
         for tg in targets:
             for v in t.variants:
                 n = len(v.fields)
                 i = des[(tg, v.name)]
-                if tg.startswith('A') and v.fields[i].ft.rust != tg:
-                    return None                      # overwritten by a later A-target: draw again
+                if exact(tg) and v.fields[i].ft.rust != tg:
+                    return None                      # overwritten by a later exact-type target: draw again
+                if tg.startswith('B') and not v.fields[i].ft.rust.startswith('A<'):
+                    return None                      # conversions exist from A<K> only
                 same = [j for j, f in enumerate(v.fields) if f.ft.rust == tg]
                 if n == 1:
                     mark = r.random() < 0.3
@@ -928,6 +969,13 @@ class UnionSuite(Suite):
             dfield = r.randrange(nf)
             if nf > 1 or r.random() < 0.4:
                 fs[dfield].at['_metas'] = ['Default']
+            uvals = {'u8': ('5', '5u8'), 'u16': ('300', '300u16'), 'u32': ('70000', '70000u32'), 'u64': ('9', '9u64'),
+                     'C<1>': ('C(2)', 'C::<1>(2)')}
+            fs[dfield].dval = None
+            if r.random() < 0.6 and fs[dfield].ft.rust in uvals:
+                val, exp = uvals[fs[dfield].ft.rust]
+                fs[dfield].dval = exp
+                fs[dfield].at['_metas'] = [sp_default_value(r, val)]
             ta.append('Default')
         r.shuffle(ta)
         t.type_attrs = [', '.join(ta)]
@@ -951,8 +999,9 @@ class UnionSuite(Suite):
             checks.append('for p in 0..6u8 { let a = mk(p); let b = ::core::clone::Clone::clone(&a); out.check(bytes(&a) == bytes(&b), "%s", "union_clone", || format!("clone {:?} of {:?}", bytes(&b), bytes(&a))); }' % tid)
         if 'Default' in traits:
             f = fs[dfield]
-            checks.append('{ let d = <T as ::core::default::Default>::default(); let e = T { %s: ::core::default::Default::default() }; let n = ::core::mem::size_of::<%s>();'
-                          ' out.check(bytes(&d)[..n] == bytes(&e)[..n], "%s", "union_default", || format!("default() initialised {:?} expected field %s = {:?}", &bytes(&d)[..n], &bytes(&e)[..n])); }' % (f.name, f.ft.rust, tid, f.name))
+            checks.append('{ let d = <T as ::core::default::Default>::default(); let e = T { %s: %s }; let n = ::core::mem::size_of::<%s>();'
+                          ' out.check(bytes(&d)[..n] == bytes(&e)[..n], "%s", "union_default", || format!("default() initialised {:?} expected field %s = {:?}", &bytes(&d)[..n], &bytes(&e)[..n])); }'
+                          % (f.name, f.dval or '::core::default::Default::default()', f.ft.rust, tid, f.name))
         fns.append('pub fn run(out: &mut Out) { %s }' % ' '.join(checks))
         return t, module(t, '\n'.join(fns), 6), dict(values=6, traits=traits)
 
@@ -983,6 +1032,8 @@ class BoundsSuite(Suite):
     def make(self, r, tid):
         if r.random() < 0.2:
             return self.make_into(r, tid)
+        if r.random() < 0.1:
+            return self.make_union(r, tid)
         trait = pick(r, list(BOUND_TRAITS))
         info = BOUND_TRAITS[trait]
         nparams = pick(r, [1, 2, 2, 3])
@@ -1030,8 +1081,10 @@ class BoundsSuite(Suite):
         g = ', '.join(params)
         extra = [MANUAL_IMPL[m] % dict(g=g, a=g) for m in info.get('manual', [])]
         checks = []
-        for combo in itertools.product(['Good', 'Bad'], repeat=nparams):
-            exp = all(c == 'Good' for p, c in zip(params, combo) if p in needed)
+        # Half implements the weaker trait of each companion pair only: a bound on the stronger one shows
+        strong = trait in ('Ord', 'Copy')      # a stand-alone Eq asks PartialEq of the field types (README: 'bound to the PartialEq trait')
+        for combo in itertools.product(['Good', 'Bad', 'Half'], repeat=nparams):
+            exp = all((c == 'Good' or (c == 'Half' and not strong)) for p, c in zip(params, combo) if p in needed)
             inst = 'T<%s>' % ', '.join(combo)
             checks.append('{ use crate::support::%s::Fallback as _; let g = crate::support::%s::P::<%s>::YES; out.check(g == %s, "%s", "impl_applies", || format!("%s: %s is {} but the delegated fields say %s", g)); }'
                           % (info['probe'], info['probe'], inst, 'true' if exp else 'false', tid, inst, trait, 'true' if exp else 'false'))
@@ -1083,6 +1136,36 @@ def _make_into(self, r, tid):
     return t, module(t, body, 1), dict(values=8, trait='Into', mode='auto')
 BoundsSuite.make_into = _make_into
 
+def _make_union_bounds(self, r, tid):
+    """generic unions: stand-alone Eq (beside a hand-written PartialEq) and Copy + Clone bound every field type"""
+    trait = pick(r, ['Eq', 'CopyClone'])
+    params = ['X', 'Y'][:pick(r, [1, 2])]
+    fs = [Fld(nm, FT('::core::mem::ManuallyDrop<%s>' % p, [])) for nm, p in zip(['a', 'b'], params)]
+    if r.random() < 0.4:
+        fs.append(Fld('c', FT('u8', [])))
+    r.shuffle(fs)
+    t = Ty(tid, 'union', [Var(None, 'named', fs)])
+    t.generic = params
+    g = ', '.join(params)
+    if trait == 'Eq':
+        t.type_attrs = ['Eq']
+        extra = [MANUAL_IMPL['PartialEq'] % dict(g=g, a=g)]
+        probes = [('p_eq', 'Eq')]
+    else:
+        t.type_attrs = [pick(r, ['Copy, Clone', 'Clone, Copy'])]
+        extra = []
+        probes = [('p_copy', 'Copy'), ('p_clone', 'Clone')]
+    checks = []
+    for probe, tn in probes:
+        for combo in itertools.product(['Good', 'Bad', 'Half'], repeat=len(params)):
+            exp = all((c == 'Good' or (c == 'Half' and trait == 'Eq')) for c in combo)
+            inst = 'T<%s>' % ', '.join(combo)
+            checks.append('{ use crate::support::%s::Fallback as _; let g = crate::support::%s::P::<%s>::YES; out.check(g == %s, "%s", "impl_applies", || format!("%s: %s is {} but the field types say %s", g)); }'
+                          % (probe, probe, inst, 'true' if exp else 'false', tid, inst, tn, 'true' if exp else 'false'))
+    body = '\n'.join(extra + ['pub fn run(out: &mut Out) { %s }' % ' '.join(checks)])
+    return t, module(t, body, 1), dict(values=3 ** len(params), trait=trait, mode='auto')
+BoundsSuite.make_union = _make_union_bounds
+
 SUITES['bounds'] = BoundsSuite()
 
 # ---- C12 / C01: rich generic parameter lists and user where-clauses must survive in every impl header
@@ -1124,9 +1207,15 @@ class GenericsSuite(Suite):
             vis = 'pub ' if kind == 'struct' else ''
             for nm, ty in fs:
                 a = ''.join('#[educe(%s)] ' % m for m in markers) if (nm == 'n' and markers) else ''
+                if nm == 'arr' and arr_method:
+                    a += '#[educe(%s)] ' % arr_method
                 out.append('%s%s%s: %s' % (a, vis, nm, ty) if shape == 'named' else '%s%s%s' % (a, vis, ty))
             return ' { ' + ', '.join(out) + ' }' if shape == 'named' else '(' + ', '.join(out) + ')'
         markers = []
+        # a Debug method that needs the type's own where-clause: the wrapper impl emitted inside `fmt` must carry it too
+        arr_method = None
+        if 'Debug' in traits and 'X: Mk' in where and r.random() < 0.6:
+            arr_method = pick(r, ['Debug(method = show_mk)', 'Debug(method(show_mk))', 'Debug(method = "show_mk")'])
         if 'Into' in traits:
             markers.append('Into(u8)')
         if 'Deref' in traits:
@@ -1171,7 +1260,7 @@ class GenericsSuite(Suite):
         t = Ty(tid, kind, [])
         t.raw_decl = '#[derive(Educe)]\n' + '\n'.join('#[educe(%s)]' % a for a in tattrs) + '\n' + body
         src = ('// %s\n#![allow(dead_code, unused_variables, unused_mut, unused_imports)]\nuse crate::support::*;\n'
-               'pub mod ty {\n    #![deny(warnings)]\n    #![allow(dead_code, unused_imports)]\n    use crate::support::{Good, Bad, Mk};\n    use educe::Educe;\n%s\n}\npub use ty::T;\n'
+               'pub mod ty {\n    #![deny(warnings)]\n    #![allow(dead_code, unused_imports)]\n    use crate::support::{Good, Bad, Mk, show_mk};\n    use educe::Educe;\n%s\n}\npub use ty::T;\n'
                'static G: Good = Good(9);\npub fn run(out: &mut Out) { %s out.check(true, "%s", "compile", || String::new()); }\n' % (tid, t.raw_decl, ' '.join(uses), tid))
         return t, src, dict(values=1, traits=traits)
 
